@@ -215,7 +215,7 @@ func init() {
 		},
 		Run:            c15Run,
 		Floor:          func(tier string) int { return 5000 },
-		Rule:           "(half of the gate probes run on an instance initialised with the attributes of a valid node; behind an accepted list with a skipped optional input the list with that nil removed is probed) (every fourth gate case is followed back to back by three probes drawn from the whole space; model-level gates are also asked after one or two valid Runs on the same loaded model) complete enumeration: 55 operators x input count 0..max+2 (Concat 0..12) x each of the 14 ONNX element types and of 3 gorgonia element types that are not ONNX types (int, uint, uintptr), plus three user-named Go types whose Kind is an ONNX kind, each ONNX probe also as a tensor with zero elements and as a rank-0 tensor at each supplied position (other positions carry an allowed type) x nil at each optional position (alone and combined with every type probe at every other position); every second list is a prefix of a larger array with other tensors behind its length, through Operator.ValidateInputs of a fresh instance from opset13.GetOperator; arities cross-checked against an independent table typed in from the ONNX spec. Then 400 registry cases: every name resolves, repeated lookups are state-independent (a fresh instance prints identically before and after another instance of the same name was Init-ed with non-default attributes and applied), foreign names yield ErrUnsupportedOperator; and single-node models observed through the operator proxy: a rejected gate is never followed by an apply event. A gate case is non-trivial when it is rejected or pads optional inputs; distinct = distinct (op, count, position, dtype, nil position).",
+		Rule:           "(a refused single-node graph is run again with a node of an unknown operator type behind the refused node: the gate's InputError is still what Run reports) (half of the gate probes run on an instance initialised with the attributes of a valid node; behind an accepted list with a skipped optional input the list with that nil removed is probed) (every fourth gate case is followed back to back by three probes drawn from the whole space; model-level gates are also asked after one or two valid Runs on the same loaded model) complete enumeration: 55 operators x input count 0..max+2 (Concat 0..12) x each of the 14 ONNX element types and of 3 gorgonia element types that are not ONNX types (int, uint, uintptr), plus three user-named Go types whose Kind is an ONNX kind, each ONNX probe also as a tensor with zero elements and as a rank-0 tensor at each supplied position (other positions carry an allowed type) x nil at each optional position (alone and combined with every type probe at every other position); every second list is a prefix of a larger array with other tensors behind its length, through Operator.ValidateInputs of a fresh instance from opset13.GetOperator; arities cross-checked against an independent table typed in from the ONNX spec. Then 400 registry cases: every name resolves, repeated lookups are state-independent (a fresh instance prints identically before and after another instance of the same name was Init-ed with non-default attributes and applied), foreign names yield ErrUnsupportedOperator; and single-node models observed through the operator proxy: a rejected gate is never followed by an apply event. A gate case is non-trivial when it is rejected or pads optional inputs; distinct = distinct (op, count, position, dtype, nil position).",
 		Exhaustive:     func(tier string) bool { return true },
 		RaceInThorough: true,
 		Technique:      "runtime monitoring: exhaustive enumeration of the finite gate space against the operators' declared constraints and an independent ONNX arity table; proxy trace check 'no apply after a failed validate'",
